@@ -52,9 +52,10 @@ def run(ctx):
         if r["encs"] and len(r["encs"][0]) > 1:
             nontrivial.add(json.dumps([r["ty"], r["encs"][0]]))
     ctx.cov["distinct_nontrivial"] = len(nontrivial)
-    ctx.cov["rule"] = ("values = seeded reflection-generated values of every schema type (%d types), each encoded 7 times (fresh / pooled x 8 goroutines / "
-                       "maps rebuilt); non-trivial = distinct (type, encoding) pairs with an encoding longer than one byte" % len(per_type))
-    ctx.cov["actions"].update({"types_exercised": len(per_type), "schema_types": len(names)})
+    ctx.cov["rule"] = ("values = seeded reflection-generated values of every schema type (%d types), each encoded 8 times (fresh / reused after a refused encoding / pooled x 8 goroutines with "
+                       "refused encodings in between / maps rebuilt); non-trivial = distinct (type, encoding) pairs with an encoding longer than one byte" % len(per_type))
+    ctx.cov["actions"].update({"types_exercised": len(per_type), "schema_types": len(names),
+                               "refused_encodings_interleaved": json.loads(lines[-1]).get("refused_between", 0) if lines else 0})
     ctx.cov["samples"] = [{kk: (vv if kk != "v" and kk != "dec" else "...") for kk, vv in json.loads(x).items()} for x in lines[:3] if len(x) < 4000]
     bad = vf.validate_trace(ctx, "Codec_Trace", cc.shard_by_size(lines, 1200000 if ctx.quick else 2500000), constants=cc.trace_constants(k), timeout=1500, heap="3g",
                             par=6 if ctx.quick else 12, what="codec round trip / determinism fails")
